@@ -12,6 +12,46 @@ RULE = ("scenario = (channels, record lengths, signedness, trigger settings incl
         "time with the block stamps; distinct by hash; non-trivial = at least one record and more than one block")
 
 
+def group_relen_scenario(rng):
+    """Group trigger across a change of the record lengths: channel 0 (edge trigger) feeds channels 1.. (no trigger of
+    their own); the records become 2-4 times LONGER between two blocks, the trigger settings are sent again to channel 0
+    only, and pulses sit early in the following blocks, so that the receivers' records reach back into the history their
+    streams retained under the old lengths."""
+    nchan = rng.choice([2, 3])
+    npre = rng.randint(4, 10)
+    nsamp = npre + rng.choice([10, 20])
+    k = rng.choice([2, 3, 4])
+    nsamp2, npre2 = nsamp * k, npre * rng.choice([1, k])
+    blen = nsamp2 - rng.randint(0, nsamp2 // 4)           # blocks a bit shorter than a new record
+    nb1, nb2 = rng.randint(2, 3), rng.randint(4, 6)
+    total = (nb1 + nb2) * blen
+    data = []
+    for c in range(nchan):
+        xs = [(1000 + 37 * c + (i * (7 + c)) % 23) for i in range(total)]   # position-dependent samples on every channel
+        data.append(xs)
+    p = npre + 2
+    while p < total - 2:
+        for i in range(p, min(total, p + 6)):
+            data[0][i] += int(500 * 0.7 ** (i - p))
+        # often shortly behind a block start: the record of a receiver then begins well before that block
+        nxt = ((p // blen) + 1) * blen + rng.choice([1, 2, 5, npre2 // 2 + 1, blen // 3])
+        p = max(p + nsamp2 + 3, nxt) if rng.random() < 0.8 else p + nsamp2 + rng.randint(3, blen)
+    t = sc.edge_trig(level=150)
+    off = streamgen.trig_off()
+    steps = [{"k": "trig", "chans": [0], "t": t}]
+    for r in range(1, nchan):
+        steps.append({"k": "conn", "op": "add", "s": 0, "r": r})
+    for _ in range(nb1):
+        steps.append({"k": "block", "n": blen})
+    steps.append({"k": "len", "nsamp": nsamp2, "npre": npre2})
+    if rng.random() < 0.8:
+        steps.append({"k": "trig", "chans": [0], "t": t})
+    for _ in range(nb2):
+        steps.append({"k": "block", "n": blen})
+    return {"origin": "group-trigger-across-length-change", "nchan": nchan, "npre": npre, "nsamp": nsamp, "signed": False, "period": 1000,
+            "frame0": rng.choice([0, 1 << 33]), "start": "fresh", "trig": [t] + [off] * (nchan - 1), "steps": steps, "data": data, "oneblock": False}
+
+
 def run(ctx):
     q = ctx.quick()
     scens, _ = sc.stream_mc(ctx, q, reconf=False)
@@ -22,6 +62,9 @@ def run(ctx):
     nem = 80 if q else 1500
     scens += [c08.random_scen(rng) for _ in range(nem)]   # edge-multi records (variable length, all three modes) are records too
     ctx.notes["scenarios_edge_multi"] = nem
+    ng = 60 if q else 1200
+    scens += [group_relen_scenario(rng) for _ in range(ng)]
+    ctx.notes["scenarios_group_trigger_across_length_change"] = ng
     sc.validate(ctx, scens, PREFIXES)
     return vlib.finish(ctx, LEVEL, RULE,
                        ["block time stamps are mutually consistent (first sample time = epoch + frame * period)",
